@@ -33,7 +33,7 @@ deriving Repr, Inhabited
 /-- `true` (original code): slices are handed out as `b[off:]` — their capacity runs to the end of the
 buffer's array. `false` (repaired): `b[off:len:len]`. -/
 structure BufCfg where
-  openCap : Bool := true
+  openCap : Bool := false   -- repaired in /repo (fix: hand out buffered byte slices with their own capacity)
 deriving Repr, Inhabited
 
 def readWin (arrays : List Bytes) (w : Win) : Bytes :=
